@@ -9,7 +9,7 @@ THEOREMS = ["Mesa.Agents." + t for t in (
     "C04_survivor_invoked_exactly_once", "C04_removed_unheld_never_invoked", "C04_created_during_call_never_invoked",
     "C04_shuffle_do_order", "C04_map_results_aligned", "C04_groupby_do_is_regrouped_walk",
     "C04_groupby_map_like_do", "C04_exactly_once_all_histories")]
-COUNTS = {"quick": 1000, "thorough": 40000}
+COUNTS = {"quick": 1000, "thorough": 150000}
 TRUSTED = [
     "CPython refcounting + weakref: an agent dies (its weak references clear) at the moment its model deregisters it and the program holds no reference; no reference cycles through agents",
     "WeakKeyDictionary.keyrefs() lists exactly the live keys in insertion order",
